@@ -551,6 +551,12 @@ pub fn map_group_by(
 
         let key = key_result.value;
 
+        // A key object made by the callback is only held by `groups` (plain Rust data) until
+        // the result Map exists: keep it alive across the remaining callback calls
+        if let JsValue::Object(key_obj) = &key {
+            guard.guard(key_obj.clone());
+        }
+
         // Add to existing group or create new one
         groups.entry(JsMapKey(key)).or_default().push(item);
     }
